@@ -237,6 +237,34 @@ func monC08(c *drv.Ctx) {
 		cs.C.Obs("nesting-path cases", 1)
 	})
 
+	// (4b') nesting through an arbitrary sequence of positions with long runs of one kind (k structs, a list,
+	// many more structs ...): the depth budget must be counted across kinds, whatever the order
+	c.Stage("random-nesting-sequences", c.Pick(3000, 60000), false, func(cs *drv.Case) {
+		r := cs.R
+		depth := 40 + r.Intn(33) // 40..72
+		path := make([]byte, 0, depth)
+		for len(path) < depth {
+			k := "slekv"[r.Intn(5)]
+			if r.Intn(2) == 0 {
+				k = 's' // struct chains are the common case
+			}
+			run := 1 + r.Intn(6)
+			if r.Intn(4) == 0 {
+				run = 1 + r.Intn(60)
+			}
+			for j := 0; j < run && len(path) < depth; j++ {
+				path = append(path, k)
+			}
+		}
+		b, top := gen.NestedPath(string(path), depth, r.Intn(2) == 0)
+		cs.Desc = M{"path": string(path), "depth": depth, "input_hex": hexOf(b)}
+		runAllSkippers(cs, b, top, allocCap, true)
+		if r.Intn(2) == 0 {
+			runAllSkippers(cs, b[:len(b)-1-r.Intn(minInt(len(b)-1, 30))], top, allocCap, true)
+		}
+		cs.C.Obs("random nesting sequences", 1)
+	})
+
 	// (4c) size fields with the sign bit set that are followed by as many bytes as their unsigned reading
 	// declares (2..8 GiB of untouched zero pages): still negative sizes, never values. The largest
 	// non-negative sizes next to them, and containers whose payload crosses 2^31 and 2^32 bytes, must be accepted.
